@@ -57,14 +57,29 @@ def run(chk, prop):
                         continue
                     o = ob(nm)
                     o.paths += 1
-                    if orc[nm] is not None and o.verdict != 'violated':
-                        o.verdict = 'violated'
-                        o.detail = '%s (shape %s)' % (orc[nm][:700], shape)
-                        o.model = {'shape': repr(shape), 'timeline': [list(map(str, e)) for e in res['timeline']][:60]}
-                        o.shape, o.res = shape, res
+                    if orc[nm] is not None:
+                        if o.verdict != 'violated':
+                            o.verdict = 'violated'
+                            o.detail = '%s (shape %s)' % (orc[nm][:700], shape)
+                            o.model = {'shape': repr(shape), 'timeline': [list(map(str, e)) for e in res['timeline']][:60]}
+                            o.shape, o.res = shape, res
+                            o.cands = []
+                        # further violating paths (at most 2 per shape): a deviation may be observable natively only in
+                        # some of them (e.g. a wrong `failed` flag shows only where a retry budget exists)
+                        if len([c for c in o.cands if c[0] is shape]) < 2 and len(o.cands) < 10:
+                            o.cands.append((shape, res, orc[nm]))
     for nm, o in obs.items():
         if o.verdict == 'violated' and hasattr(o, 'shape'):
-            confirm(chk, o, prop, nm)
+            base = o.detail
+            # shapes with a retry budget first for the retry decision
+            cands = sorted(o.cands, key=lambda c: 0 if (c[0].retries is not None and nm.startswith('attempt-reported')) else 1)
+            for shape, res, why in cands:
+                o.verdict, o.shape, o.res = 'violated', shape, res
+                o.detail = '%s (shape %s)' % (why[:700], shape)
+                o.model = {'shape': repr(shape), 'timeline': [list(map(str, e)) for e in res['timeline']][:60]}
+                confirm(chk, o, prop, nm)
+                if o.verdict == 'violated':
+                    break
     w = chk.add(Obligation('%s.attempt.witness' % prop, 'exploration'))
     w.kind = 'witness'
     w.verdict = 'witness-ok' if n >= 60 and names[0] in obs else 'witness-missing'
